@@ -317,3 +317,150 @@ def c02_judge(case, impl_line):
     for pid in got:
         if pid not in truth: return f"elementary-stream data attributed to PID {pid} which carries none"
     return None
+
+# ---------------------------------------------------------------- table histories (C05 / C10 / C11)
+def parse_history(case):
+    toks = case.split()
+    h = [t for t in toks if t.startswith("#H=")]
+    recs = []
+    if h:
+        for r in [x for x in h[0][3:].split(";") if x]:
+            f = r.split("|")
+            if f[0] == "T":
+                pid = int(f[1]); desc = f[6]
+                if pid == 0:
+                    entries = [tuple(int(y) for y in e.split(":")) for e in desc.split(",") if e]
+                    recs.append(dict(k="T", pid=0, first=int(f[2]), last=int(f[3]), kind=f[4], ver=int(f[5]), pat=entries))
+                else:
+                    pn, ss = desc.split("/", 1)
+                    streams = [tuple(int(y) for y in e.split(":")) for e in ss.split(",") if e]
+                    recs.append(dict(k="T", pid=pid, first=int(f[2]), last=int(f[3]), kind=f[4], ver=int(f[5]), pn=int(pn), streams=streams))
+            elif f[0] == "P":
+                recs.append(dict(k="P", pid=int(f[1]), idx=int(f[2])))
+    data = b"".join(unhex(t) for t in toks[3:] if not t.startswith("#"))
+    return recs, data
+
+def group_events(ev):
+    """[(serial, byte offset, [events caused by that packet])]; a ByPid request belongs to the packet that follows it"""
+    groups = []; pending = []
+    for e in ev:
+        if e[0] == "packet":
+            groups.append([e[1], e[2], list(pending)]); pending = []
+        elif e[0] == "construct" and e[2][0] == "bypid":
+            pending.append(e)
+        elif groups:
+            groups[-1][2].append(e)
+    return groups
+
+def started_version(data, pkt_index):
+    """version_number of the section that the start packet #pkt_index would make the chain record, or None"""
+    b = data[pkt_index * 188:(pkt_index + 1) * 188]
+    if len(b) < 188: return None
+    p = Pkt(b); pl = p.payload()
+    if pl is None or not p.pusi or len(pl) < 1: return None
+    ptr = pl[0]; s = pl[1 + ptr:]
+    if ptr > 0 and ptr >= len(pl) - 1: return None
+    if len(s) < 8 or not (s[1] & 0x80): return None
+    if (((s[1] & 0x0f) << 8) | s[2]) > 1021: return None
+    return (s[5] >> 1) & 31
+
+def history_judge(case, impl_line, prop):
+    """returns ('ok',None) | ('violation', why) | ('known', id)"""
+    recs, data = parse_history(case)
+    nums = parse_obs(impl_line)
+    if nums is None: return ("violation", "implementation panicked")
+    try: ev = parse_events(nums)
+    except Exception as x: return ("violation", f"undecodable observation ({x})")
+    r = es_protocol_ok(ev)
+    if r: return ("violation", r)
+    groups = group_events(ev)
+    by_off = {g[1]: g for g in groups}
+    ctor = {e[1]: e[2] for e in ev if e[0] == "construct"}
+    def table_constructs(first, last):
+        out = []
+        for k in range(first, last + 1):
+            g = by_off.get(k * 188)
+            if g: out += [e[2] for e in g[2] if e[0] == "construct" and e[2][0] != "bypid"]
+        return out
+    ideal_ver = {}            # table pid -> version last applied (ideal)
+    ideal_pat = []            # [(pn, pid)]
+    ideal_pmt = {}            # pmt pid -> (pn, [(type, pid)])
+    started_not_applied = {}  # table pid -> set of versions started since the last application
+    pat_since_pmt = {}        # pmt pid -> a new PAT version was applied since that PMT's last application (instance re-created)
+    recreated = set()         # pmt pids whose handler instance was re-created between two of their versions
+    listed_by = {}            # elementary pid -> set of pmt pids that ever listed it
+    stale = {}                # pid -> (table pid that dropped it, forbidden request kind)
+    known = None
+    for rc in recs:
+        if rc["k"] == "T":
+            pid = rc["pid"]; ver = rc["ver"]
+            if pid != 0:
+                for (_, ep) in rc["streams"]: listed_by.setdefault(ep, set()).add(pid)
+            cons = table_constructs(rc["first"], rc["last"])
+            if rc["kind"] == "dmg":
+                sv = started_version(data, rc["first"])
+                if sv is not None: started_not_applied.setdefault(pid, set()).add(sv)
+                continue
+            ideal_applies = ideal_ver.get(pid) != ver
+            if ideal_applies:
+                exp = ([("nit", p) if n == 0 else ("pmt", p, n) for (n, p) in rc["pat"]] if pid == 0
+                       else [("bystream", pid, t, ep) for (t, ep) in rc["streams"]])
+                got = [c[:4] if c[0] == "bystream" else c for c in cons]
+                if not cons and exp:
+                    if prop in ("C11", "C05") and ver in started_not_applied.get(pid, set()):
+                        known = known or "F2"
+                        continue                      # blocked: the table never arrives, the ideal state does not advance either
+                    if prop in ("C11", "C05"):
+                        return ("violation", f"intact table on PID {pid} (packets {rc['first']}..{rc['last']}, version {ver}) whose version differs from the one last applied was not applied")
+                elif got != exp and prop == "C05":
+                    return ("violation", f"table on PID {pid} version {ver}: requests {got} differ from the entries {exp}")
+                ideal_ver[pid] = ver; started_not_applied[pid] = set()
+                if pid == 0:
+                    for (n, q) in ideal_pat:
+                        if q not in [x[1] for x in rc["pat"]]: stale[q] = (0, "nit" if n == 0 else "pmt")
+                    for (n, q) in rc["pat"]: stale.pop(q, None)
+                    ideal_pat = rc["pat"]
+                    for q in ideal_pmt: pat_since_pmt[q] = True
+                else:
+                    if pid in ideal_pmt:
+                        if pat_since_pmt.get(pid): recreated.add(pid)
+                        for (t, q) in ideal_pmt[pid][1]:
+                            if q not in [x[1] for x in rc["streams"]]: stale[q] = (pid, "bystream")
+                    for (t, q) in rc["streams"]: stale.pop(q, None)
+                    ideal_pmt[pid] = (rc["pn"], rc["streams"]); pat_since_pmt[pid] = False
+            else:
+                if cons and prop == "C10":
+                    if pid != 0 and pat_since_pmt.get(pid):
+                        known = known or "F8"
+                        pat_since_pmt[pid] = False
+                    else:
+                        return ("violation", f"repetition of the table on PID {pid} (version {ver}, packets {rc['first']}..{rc['last']}) caused requests {cons[:3]}")
+        elif rc["k"] == "P" and prop == "C05":
+            X = rc["pid"]
+            g = by_off.get(rc["idx"] * 188)
+            if g is None:
+                return ("violation", f"probe packet {rc['idx']} on PID {X} reached no handler")
+            req = ctor.get(g[0]); req = req[:4] if req and req[0] == "bystream" else req
+            live = {q: n for (n, q) in ideal_pat}
+            exp = []; owners = []
+            if X in live: exp.append(("nit", X) if live[X] == 0 else ("pmt", X, live[X]))
+            for pp, (pn, ss) in ideal_pmt.items():
+                if pp in live and live[pp] != 0:
+                    for (t, ep) in ss:
+                        if ep == X: exp.append(("bystream", pp, t, X)); owners.append(pp)
+            bad = None
+            if exp:
+                if req not in exp: bad = f"the latest valid PAT/PMT call for {exp}"
+            elif X in stale:
+                tp, kind = stale[X]
+                if req and req[0] == kind and (kind != "bystream" or req[1] == tp):
+                    bad = f"that PID was dropped by a newer version of the table on PID {tp} and must no longer go to the handler it installed"
+                    owners = [tp]
+            if bad:
+                if len(listed_by.get(X, ())) >= 2: known = known or "F7"
+                elif any(o in recreated for o in owners): known = known or "F8"
+                elif known == "F2": pass               # routing after a blocked table (F2) follows the older table
+                else:
+                    return ("violation", f"probe on PID {X} (packet {rc['idx']}) was handled by a handler built from {req}; {bad}")
+    if known: return ("known", known)
+    return ("ok", None)
